@@ -123,10 +123,11 @@ def template(draw):
     return {"body": body, "nested": nested, "clones": clones, "rear": rear, "use_m": use_m, "hier": hier,
             "second": second, "ek": draw(st.integers(1, 8)),
             "t1": draw(st.integers(1, 6)), "t2": draw(st.integers(1, 6)), "t3": draw(st.integers(1, 5)), "t4": draw(st.integers(1, 5)),
-            "loop": draw(st.booleans()), "ticks": draw(st.integers(8, 26)), "mainvia": draw(st.booleans()), "orgvia": orgvia}
+            "loop": draw(st.booleans()), "ticks": draw(st.integers(8, 26)), "mainvia": draw(st.booleans()), "orgvia": orgvia,
+            "framevia": orgvia and draw(st.booleans())}
 
 
-def moot_lines(name, body, nested, sched, use_m=False, hier=None):
+def moot_lines(name, body, nested, sched, use_m=False, hier=None, framevia=False):
     L = ["framer %s be %s" % (name, sched)]
     if hier:
         L.append("frame %sT" % name[0].upper())
@@ -142,7 +143,8 @@ def moot_lines(name, body, nested, sched, use_m=False, hier=None):
             # re-exit / re-enter actions of the enclosing frame (run at every transition between its under frames)
             L += ["rexit", "inc top of framer with 10", "renter", "inc top of framer with 100", "exit", "inc top of framer with 1000"]
     for i, fr in enumerate(body):
-        L.append("frame %s%d" % (name[0].upper(), i) + (" in %sT" % name[0].upper() if hier else ""))
+        L.append("frame %s%d" % (name[0].upper(), i) + (" in %sT" % name[0].upper() if hier else "") +
+                 (" via fr%d" % i if framevia else ""))
         if fr.get("guard") is not None and not hier:
             # (flat bodies only: there the guarded frame is never part of the first outline, whose entry checks run
             # before `cnt` is initialised)
@@ -264,7 +266,9 @@ def script(tp, baseline=None):
             L.append(PLACEHOLDER)
         L += ["go next if .d.a >= %d" % (sec["tb"] + sec["tb2"]), "frame g3", "print g"]
     sched = "moot" if baseline is None else "aux"
-    ml = moot_lines("org", tp["body"], tp["nested"], sched, tp.get("use_m"), tp.get("hier"))
+    # (with an inode of the moot's own, its frames may have inodes too: `frame O0 via fr0` - plain relative data of a
+    # frame then lives under framer inode + frame inode, in the clone as in the original)
+    ml = moot_lines("org", tp["body"], tp["nested"], sched, tp.get("use_m"), tp.get("hier"), framevia=bool(tp.get("framevia")))
     if tp.get("orgvia"):
         ml[0] += " via box of framer"
     L += ml
